@@ -123,7 +123,9 @@ def expected_facts(it, S, net, users, universe):
     return out
 
 
-def run_case(make_it, contract_factory, net, method, extra_labels=(), max_tuples=40, timeout_ms=20000, verbose=False):
+def run_case(make_it, contract_factory, net, method, extra_labels=(), max_tuples=40, timeout_ms=20000, verbose=False, native_call=None, result_holder=None):
+    """native_call(circuit, args, kwargs) -> the circuit whose state is compared (default: call `method`, compare the receiver);
+    result_holder(ctx, value) -> the abstract heap holder that describes it (default: the receiver's)"""
     """returns a list of problem strings (empty = the abstract run conforms to CPython on this circuit)"""
     from ..spec import net as N
     import cirbo.core.circuit.gate as gate_mod
@@ -203,7 +205,10 @@ def run_case(make_it, contract_factory, net, method, extra_labels=(), max_tuples
         nargs = _native_args(list(any_conf[0][1:]), assign, gate_mod)
         nkw = dict(zip(any_conf[1].keys(), _native_args(list(any_conf[1].values()), assign, gate_mod)))
         try:
-            getattr(nat, method)(*nargs, **nkw)
+            if native_call is not None:
+                nat = native_call(nat, nargs, nkw)
+            else:
+                getattr(nat, method)(*nargs, **nkw)
             nat_out = ('return', None)
         except Exception as e:       # noqa
             nat_out = ('raise', type(e).__name__)
@@ -217,22 +222,26 @@ def run_case(make_it, contract_factory, net, method, extra_labels=(), max_tuples
                     covered = True
                 continue
             hyps = list(ctx.pc) + it.background() + fix
-            dead, _, _ = solve.quick_check(hyps, z3.BoolVal(False), timeout_ms=5000)
+            dead, _, _ = solve.quick_check(hyps, z3.BoolVal(False), timeout_ms=8000)
             if dead == 'proved':
                 continue
+            definite = dead == 'refuted'          # the solver exhibited a model of the path condition: the path IS feasible
             covered = True
             if out[0] == 'raise':
                 got = out[1].cls.name if isinstance(out[1], Obj) else repr(out[1])
-                if nat_out[0] != 'raise':
-                    problems.append(f'{method}{tuple(nargs)}: a feasible abstract path raises {got}, CPython returns normally')
-                elif got != nat_out[1]:
-                    problems.append(f'{method}{tuple(nargs)}: abstract path raises {got}, CPython raises {nat_out[1]}')
+                if nat_out[0] != 'raise' or got != nat_out[1]:
+                    msg = f'{method}{tuple(nargs)}: abstract path raises {got}, CPython ' + (f'raises {nat_out[1]}' if nat_out[0] == 'raise' else 'returns normally')
+                    (problems if definite else imprecise).append(msg + ('' if definite else ' (feasibility of that path undecided by the solver)'))
                 continue
             if nat_out[0] == 'raise':
-                problems.append(f'{method}{tuple(nargs)}: a feasible abstract path returns normally, CPython raises {nat_out[1]}')
+                msg = f'{method}{tuple(nargs)}: abstract path returns normally, CPython raises {nat_out[1]}'
+                (problems if definite else imprecise).append(msg + ('' if definite else ' (feasibility of that path undecided by the solver)'))
                 continue
             obj = ctx._conf[0][0]
-            h = getattr(obj, 'holder', None)
+            h = result_holder(ctx, out[1]) if result_holder is not None else getattr(obj, 'holder', None)
+            if h is None:
+                problems.append(f'{method}{tuple(nargs)}: the abstract run returned no circuit on the abstract heap')
+                continue
             CM.sync_fields(it, h)
             facts = expected_facts(it, h.S, after, after.users, universe)
             st_, _, _ = solve.quick_check(hyps, z3.And([f for _, f in facts]), timeout_ms=timeout_ms)
@@ -250,7 +259,7 @@ def run_case(make_it, contract_factory, net, method, extra_labels=(), max_tuples
                 if excl == 'proved':
                     problems.append(f'{method}{tuple(nargs)}: the real final state is EXCLUDED by the abstract path (unsound model); first component not entailed: {first}')
                 else:
-                    imprecise.append(f'{method}{tuple(nargs)}: {first[0] if first else "?"} not determined by the abstract path (over-approximation)')
+                    imprecise.append(f'{method}{tuple(nargs)}: {first[0] if first else "?"} not established from the abstract path (over-approximation of the model, or a limit of the solver on this query)')
         if not covered:
             problems.append(f'{method}{tuple(nargs)}: NO explored path covers these arguments (lost path)')
     if verbose:
